@@ -173,6 +173,15 @@ class Interp:
             self.cache_returns = getattr(self, "cache_returns", {})
             self.cache_returns[path] = (val[1], val[2])
             return val[3][1]
+        if val[0] == "matchv" and len(val) > 2:
+            # `match self.cache { Some(cached) => cached.clone(), None => { build.. } }` - the same cache idiom spelled with match
+            arms = dict(val[2]) if all(isinstance(a, tuple) and len(a) == 2 for a in val[2]) else {}
+            some = [v for k_, v in arms.items() if str(k_).endswith("Some")]
+            none = [v for k_, v in arms.items() if str(k_).endswith("None")]
+            if len(some) == 1 and len(none) == 1 and none[0][0] == "buf" and some[0][0] == "payload" and some[0][1] == val[1]:
+                self.cache_returns = getattr(self, "cache_returns", {})
+                self.cache_returns[path] = (("is", val[1], "std::prelude::v1::Some"), some[0])
+                return none[0][1]
         if val[0] != "buf":
             raise Unanalysable("%s does not evaluate to a byte buffer: %s" % (path, show(val)[:300]))
         return val[1]
